@@ -48,6 +48,25 @@ var (
 	c08StructExprs []jp.Expr
 )
 
+// zDir and zFile refer to each other (plans of mutually recursive types are built together).
+type zDir struct {
+	Name  string
+	Files []*zFile
+}
+
+type zFile struct {
+	Name   string
+	Size   int
+	Parent *zDir
+}
+
+// spelled is recomposed from maps that spell a field's key in more than one way.
+type spelled struct {
+	Name  string
+	Count int
+	Alias string `json:"label"`
+}
+
 // typedTarget is recomposed from sources that hold typed maps and slices (not the map[string]any / []any a
 // parser or Decompose produces).
 type typedTarget struct {
@@ -128,6 +147,7 @@ func c08Shared() {
 		{Sort: true, NestEmbed: true, OmitEmpty: true}, {Sort: true, Tab: true, UseTags: true, OmitNil: true},
 		{Sort: true, CreateKey: "type"}, {Sort: true, CreateKey: "^", FullTypePath: true}, {Sort: true, CreateKey: "type", FullTypePath: true, OmitNil: true, KeyExact: true},
 		{Sort: true, BytesAs: ojg.BytesAsBase64, TimeFormat: "nano"}, {Sort: true, TimeMap: true, CreateKey: "type"},
+		{Sort: true, HTMLUnsafe: true}, {Sort: true, HTMLUnsafe: true, Indent: 2, OmitNil: true},
 	}
 	// the first six are plain paths (also used as Set targets), the rest exercise every filter feature
 	for _, s := range []string{"$.a", "$.b[1]", "$..d", "$.b[*]", "$['a','c']", "$.b[0:2]", "$.b[?(@ > 1)]", "$.c[?(@.d > 1)].d", "$.*", "$..[?(@.d)]", "$.b[-1]", "$.c.e[?(@.x == 'y')]", "$.c[?(length(@) > 0)]",
@@ -169,6 +189,7 @@ func c08Shared() {
 	}
 	c08Typed = alt.MustNewRecomposer("", nil)
 	_ = c08Typed.RegisterComposer(&typedTarget{}, nil)
+	_ = c08Typed.RegisterComposer(&spelled{}, nil)
 	// a recomposer with a composer function that keeps the map it is handed (as user code may)
 	c08Keeper = alt.MustNewRecomposer("", map[any]alt.RecomposeFunc{&keeper{}: func(m map[string]any) (any, error) {
 		k := &keeper{}
@@ -208,6 +229,10 @@ var c08Menu = []string{
 	"alt.Recompose(typed maps)", "alt.Recompose(gen)", "Recomposer.Recompose(typed maps)", "alt.Recompose(slices)",
 	// one of many struct types (whatever is keyed, hashed or cached per type meets many types)
 	"alt.Decompose(many types)", "oj.JSON(many types)", "sen.String(many types)", "alt.Generify(many types)",
+	// a path parsed here and now (not a shared one), extended with the builder methods and used
+	"jp.Parse+extend", "jp.ParseString+Get",
+	// sources that spell a key in more than one way
+	"alt.Recompose(two spellings)", "Recomposer.Recompose(two spellings)",
 }
 
 // c08ManyTypes: 64 struct types of the same shape with different field names.
@@ -256,7 +281,17 @@ func drawVal08(t *rapid.T) (any, string) {
 	}
 	var v any
 	var name string
-	switch d(6, "val") {
+	switch d(9, "val") {
+	case 6: // keys and strings whose encoding depends on HTMLUnsafe
+		v, name = map[string]any{"a&b": []any{"<x>", map[string]any{"<k>": "R&D"}}, "plain": 1, "x<y": true}, "htmlmap"
+	case 7: // two struct types that refer to each other: the directory first
+		dir := &zDir{Name: "dir"}
+		for i := 0; i <= d(3, "files"); i++ {
+			dir.Files = append(dir.Files, &zFile{Name: fmt.Sprintf("f%d", i), Size: i})
+		}
+		v, name = dir, "&zDir"
+	case 8: // ... or a file that points back at its (file-less) directory
+		v, name = &zFile{Name: "file", Size: d(50, "size"), Parent: &zDir{Name: "up"}}, "&zFile"
 	case 0:
 		v, name = map[string]any{"k": []any{1, "two", 3.5, nil, true}, "m": map[string]any{"x": "y"}}, "map"
 	case 1:
@@ -318,7 +353,7 @@ func drawOp08(t *rapid.T, th *theme08) *op08 {
 	switch {
 	case o.Fn == "oj.Marshal(unencodable)":
 		o.Val = make(chan int)
-	case strings.Contains(o.Fn, "failing") || strings.Contains(o.Fn, "panicking") || strings.Contains(o.Fn, "reader error") || strings.Contains(o.Fn, "callback") || strings.Contains(o.Fn, "empty") || strings.Contains(o.Fn, "big") || strings.Contains(o.Fn, "invalid") || strings.Contains(o.Fn, "ints") || o.Fn == "alt.GenAlter(struct)" || o.Fn == "alt.Alter(struct)" || strings.Contains(o.Fn, "keeper") || strings.HasSuffix(o.Fn, "(struct)") && strings.HasPrefix(o.Fn, "jp.") || strings.HasPrefix(o.Fn, "alt.Recompose(") || strings.HasPrefix(o.Fn, "Recomposer.") || strings.HasSuffix(o.Fn, "(many types)"):
+	case strings.Contains(o.Fn, "failing") || strings.Contains(o.Fn, "panicking") || strings.Contains(o.Fn, "reader error") || strings.Contains(o.Fn, "callback") || strings.Contains(o.Fn, "empty") || strings.Contains(o.Fn, "big") || strings.Contains(o.Fn, "invalid") || strings.Contains(o.Fn, "ints") || o.Fn == "alt.GenAlter(struct)" || o.Fn == "alt.Alter(struct)" || strings.Contains(o.Fn, "keeper") || strings.HasSuffix(o.Fn, "(struct)") && strings.HasPrefix(o.Fn, "jp.") || strings.HasPrefix(o.Fn, "alt.Recompose(") || strings.HasPrefix(o.Fn, "Recomposer.") || strings.HasSuffix(o.Fn, "(many types)") || strings.HasPrefix(o.Fn, "jp.Parse") || strings.HasSuffix(o.Fn, "(two spellings)"):
 	case strings.HasPrefix(o.Fn, "oj.JSON"), strings.HasPrefix(o.Fn, "oj.Marshal"), strings.HasPrefix(o.Fn, "oj.Write"), strings.HasPrefix(o.Fn, "sen.String"), o.Fn == "sen.Bytes", o.Fn == "sen.Write", strings.HasPrefix(o.Fn, "pretty."), o.Fn == "alt.Decompose", o.Fn == "alt.Generify(struct)":
 		// (pretty.WriteJSON included)
 		o.Val, o.Desc = drawVal08(t)
@@ -652,6 +687,39 @@ func (o *op08) exec() (r ret08) {
 		src := []any{map[string]int{"a": o.A, "b": o.B}, map[string]any{"c": o.A + o.B}, map[string]int{fmt.Sprintf("k%d", o.B): 1}}
 		_, err := alt.Recompose(src, &out)
 		r.canon = fmt.Sprintf("%v %v", err != nil, derefAll(reflect.ValueOf(out)))
+	case "jp.Parse+extend":
+		text := []string{"$.c.e", "$.a.b.c.d", "$.c", "$.b[1].x.y.z", "$..d.e", "$.c.e[0].x.y.z.w.v"}[o.B%6]
+		x, err := jp.ParseString(text)
+		if err != nil {
+			r.canon = "error"
+			break
+		}
+		y := x.Child(fmt.Sprintf("k%d", o.A))
+		z := y.Nth(o.A)
+		vsync.Point(vsync.KUser, 0)
+		d := map[string]any{"c": map[string]any{"e": map[string]any{fmt.Sprintf("k%d", o.A): []any{0, 1, 2, 3, 4, 5, 6, 7, 8, 9, 10, 11, 12, 13, 14, 15, 16}}, fmt.Sprintf("k%d", o.A): "ck"}}
+		r.canon = y.String() + " " + z.String() + " " + exactSorted(y.Get(d)) + " " + exactSorted(z.Get(d))
+		r.retained = []any{exprText{y}, exprText{z}}
+	case "jp.ParseString+Get":
+		text := []string{"$.c.e", "$.a", "$.b[*]", "$.c.e[?(@.x == 'y')]", "$..d", "$.b[0:2]"}[o.B%6]
+		x := jp.MustParseString(text)
+		r.canon = x.String() + " " + exactSorted(x.Get(privateData(o.A)))
+		r.retained = []any{exprText{x}}
+	case "alt.Recompose(two spellings)", "Recomposer.Recompose(two spellings)":
+		src := []map[string]any{
+			{"name": "lower", "count": 1, "label": "l"},
+			{"Name": "exact", "name": "lower", "Count": 2, "count": 3, "label": "l", "Alias": "a", "alias": "b"},
+			{"Name": "exact", "Count": 2, "Alias": "a"},
+			{"name": "lower", "NAME": "upper", "alias": "b"},
+		}[o.A%4]
+		var out spelled
+		var err error
+		if strings.HasPrefix(o.Fn, "Recomposer.") {
+			_, err = c08Typed.Recompose(src, &out)
+		} else {
+			_, err = alt.Recompose(src, &out)
+		}
+		r.canon = fmt.Sprintf("%v %+v", err != nil, out)
 	case "alt.Decompose(many types)":
 		r.canon = ref.Exact(alt.Decompose(manyTypesValue(o.A, o.B), opts(o.O)))
 	case "oj.JSON(many types)":
@@ -766,7 +834,13 @@ func warmUp() {
 	_ = alt.DefaultRecomposer.RegisterComposer(&za.Node{}, nil)
 	_ = alt.DefaultRecomposer.RegisterComposer(&za.EmbedsDeep{}, nil)
 	_ = alt.DefaultRecomposer.RegisterComposer(&typedTarget{}, nil)
+	_ = alt.DefaultRecomposer.RegisterComposer(&spelled{}, nil)
 }
+
+// exprText lets a retained jp.Expr be re-inspected by its text (snapshot prints values with %v / ref.Exact).
+type exprText struct{ x jp.Expr }
+
+func (e exprText) String() string { return e.x.String() }
 
 // ---- race detector as in-run monitor
 
